@@ -6,7 +6,7 @@ from pathlib import Path
 from types import NoneType
 from typing import TYPE_CHECKING
 
-from safeds_stubgen import is_internal
+from safeds_stubgen import escape_string_literal, is_internal
 from safeds_stubgen.api_analyzer import (
     API,
     Attribute,
@@ -862,7 +862,7 @@ class StubsStringGenerator:
             types = []
             for literal_type in type_data["literals"]:
                 if isinstance(literal_type, str):
-                    types.append(f'"{literal_type}"')
+                    types.append(escape_string_literal(literal_type))
                 elif isinstance(literal_type, bool):
                     if literal_type:
                         types.append("true")
